@@ -12,6 +12,7 @@ then m (PDHG with x_relax / y passed back); one callback per iteration, the k-th
 k-th iterate.
 """
 import random
+import sys
 from fractions import Fraction
 
 import numpy as np
@@ -20,6 +21,9 @@ from vf import core
 from vf.core import fs, fl, fmat
 from harness import solverlib as sl
 from harness.solverlib import flat, unflat, size_of, Recorder, guarded
+
+if hasattr(sys, 'set_int_max_str_digits'):
+    sys.set_int_max_str_digits(0)   # exact rationals of long runs have many digits
 
 RULE = ('one case = one (solver, problem) pair: random operator from the zoo (integer matrix, '
         'weighted matrix, partial derivative / gradient on a 1-d grid, scaling, identity) x '
@@ -129,7 +133,7 @@ def family_admm(ctx, r, exact, n, opaque=False):
     key = 'admm_linearized vs admm_linearized_simple opkind={} f={} g={}'.format(
         p['opkind'], p['fk'], p['gk'])
     ok = True
-    if st_o != st_s:
+    if st_o.split(':')[:2] != st_s.split(':')[:2]:
         ctx.violation(key, 'outcomes differ: optimised {} / simple {}'.format(st_o, st_s),
                       desc_of(p, n=n))
         ok = False
@@ -160,9 +164,611 @@ def family_admm(ctx, r, exact, n, opaque=False):
     return cases
 
 
+def err_kind(st):
+    return st.split(':')[1] if st.startswith('err:') else st
+
+
+def viol(ctx, key, what, p, **kw):
+    ctx.violation(key, what, desc_of(p, **kw))
+
+
+def split_n(r, n):
+    a = r.randint(0, n)
+    return a, n - a
+
+
+# ---------------------------------------------------------------------------
+# alternating dual updates
+
+def gen_adupdates(r, exact, opaque=False):
+    import odl
+    d = r.randint(1, 3)
+    dom = odl.rn(d)
+    m = r.randint(1, 3)
+    Ls, Gs, gks = [], [], []
+    for i in range(m):
+        k = r.choice(['matrix', 'matrix', 'identity', 'scaled'])
+        if k == 'matrix':
+            Li = odl.MatrixOperator(sl.small_int_matrix(r, r.randint(1, 3), d))
+        elif k == 'identity':
+            Li = odl.IdentityOperator(dom)
+        else:
+            Li = odl.ScalingOperator(dom, r.choice([-2.0, 0.5, 2.0]))
+        Ls.append(Li)
+        if opaque:
+            gk, g = sl.opaque_functional_zoo(r, Li.range)
+            Gs.append(g)
+            gks.append(gk)
+        else:
+            G = sl.functional_zoo(r, Li.range, exact=exact)
+            Gs.append(G)
+            gks.append(G.name)
+    stepsize = sl.pick_step(r, exact)
+    inner = [sl.pick_step(r, exact) for _ in range(m)]
+    x0 = sl.dy_vec(r, d, 16, 8)
+    return dict(solver='adupdates', opkind='x'.join(str(size_of(L.range)) for L in Ls), Ls=Ls,
+                Gs=Gs, gk='+'.join(gks), fk='-', m=m, stepsize=stepsize, inner=inner, x0=x0,
+                cb=r.choice(['inner', 'outer']))
+
+
+def impl_adupdates(p, variant, n, cb='outer'):
+    from odl.solvers.nonsmooth.alternating_dual_updates import adupdates, adupdates_simple
+    x = unflat(p['Ls'][0].domain, p['x0'])
+    g = [G if not hasattr(G, 'f') else G.f for G in p['Gs']]
+    rec = Recorder()
+    if variant == 'opt':
+        st, _ = guarded(adupdates, x, g, p['Ls'], p['stepsize'], list(p['inner']), n,
+                        callback=rec, callback_loop=cb)
+    else:
+        st, _ = guarded(adupdates_simple, x, g, p['Ls'], p['stepsize'], list(p['inner']), n)
+    return st, rec.iterates, flat(x).copy()
+
+
+def family_adupdates(ctx, r, exact, n, opaque=False):
+    p = gen_adupdates(r, exact, opaque)
+    p.update(cseed=r.cseed, exact=exact, opaque=opaque)
+    n = min(n, 8)
+    key = 'adupdates vs adupdates_simple ranges={} g={}'.format(p['opkind'], p['gk'])
+    st_o, log_o, x_o = impl_adupdates(p, 'opt', n, 'outer')
+    finals_s = []
+    st_s = 'ok'
+    for k in range(1, n + 1):
+        st_k, _, x_k = impl_adupdates(p, 'simple', k)
+        if st_k != 'ok':
+            st_s = st_k
+            break
+        finals_s.append(x_k)
+    if err_kind(st_o) != err_kind(st_s):
+        viol(ctx, key, 'outcomes differ: optimised {} / simple {}'.format(st_o, st_s), p, n=n)
+    elif st_o == 'ok':
+        d = sl.arrays_differ(log_o, finals_s)
+        if d:
+            viol(ctx, key, 'iterate k of the optimised solver vs result of the simple one '
+                 'after k iterations: ' + d, p, n=n)
+        check_callback(ctx, p, n, log_o, x_o, 'adupdates(outer)')
+        st_i, log_i, x_i = impl_adupdates(p, 'opt', n, 'inner')
+        if st_i == 'ok':
+            if len(log_i) != n * p['m']:
+                viol(ctx, 'adupdates(inner) callback count ranges={}'.format(p['opkind']),
+                     'callback called {} times in {} iterations with {} operators'.format(
+                         len(log_i), n, p['m']), p, n=n)
+            elif sl.arrays_differ(log_i[p['m'] - 1::p['m']], log_o):
+                viol(ctx, 'adupdates inner vs outer callback iterates ranges={}'.format(p['opkind']),
+                     'the last inner iterate of each sweep differs from the outer iterate', p, n=n)
+    else:
+        ctx.err(err_kind(st_o))
+    sig = ('opaque' if opaque else 'model', 'adupdates', p['opkind'], p['gk'], steps_class(exact), n)
+    nt = st_o == 'ok' and nontrivial(log_o, p['x0'])
+    if opaque:
+        ctx.case(sig if nt else None)
+        ctx.hit('oracle/adupdates')
+        return []
+    mats = [wire_op(L) for L in p['Ls']]
+    rid = []
+    for j, L in enumerate(p['Ls']):
+        rid.append(min(i for i in range(p['m']) if p['Ls'][i].range == L.range))
+    fields = ' '.join('A{0}={1} At{0}={2} p{0}={3}'.format(
+        i, fmat(mats[i][0]), fmat(mats[i][1]),
+        p['Gs'][i].cprox(p['stepsize'] * p['inner'][i])) for i in range(p['m']))
+    cases = []
+    cb = p['cb']
+    st_c, log_c, x_c = (st_o, log_o, x_o) if cb == 'outer' else impl_adupdates(p, 'opt', n, cb)
+    base = 'm={} {} stepsize={} inner={} rid={} cb={} x0={} n={}'.format(
+        p['m'], fields, fs(p['stepsize']), fl(p['inner']), ','.join(map(str, rid)), cb,
+        fl(p['x0']), n)
+    cases.append(Case(desc_of(p, n=n, variant='opt', cb=cb), sig + ('opt', cb) if nt else None,
+                      'adupdates variant=opt ' + base, st_c, log_c, {'x': x_c}))
+    st_s, _, x_s = impl_adupdates(p, 'simple', n)
+    cases.append(Case(desc_of(p, n=n, variant='simple'), sig + ('simple',) if nt else None,
+                      'adupdates variant=simple ' + base, st_s, None, {'x': x_s}))
+    ctx.hit('model/adupdates/' + cb)
+    ctx.hit('model/adupdates/simple')
+    return cases
+
+
+# ---------------------------------------------------------------------------
+# double-proximal DC
+
+def gen_dpdc(r, exact, opaque=False):
+    kind, K = sl.operator_zoo(r)
+    if opaque:
+        fk, f = sl.opaque_functional_zoo(r, K.domain)
+        gk, g = sl.opaque_functional_zoo(r, K.range)
+        hk, phi = sl.opaque_functional_zoo(r, K.domain, smooth=True)
+        F = G = PHI = None
+    else:
+        F = sl.functional_zoo(r, K.domain, exact=exact)
+        G = sl.functional_zoo(r, K.range, exact=exact)
+        PHI = sl.functional_zoo(r, K.domain, smooth=True, exact=exact)
+        fk, f, gk, g, hk, phi = F.name, F.f, G.name, G.f, PHI.name, PHI.f
+    x0 = sl.dy_vec(r, size_of(K.domain), 16, 8)
+    y0 = sl.dy_vec(r, size_of(K.range), 16, 8)
+    if 'kl' in (fk, gk):
+        x0, y0 = np.abs(x0) + 0.5, np.abs(y0) + 0.5
+    return dict(solver='dpdc', opkind=kind, L=K, f=f, g=g, phi=phi, F=F, G=G, PHI=PHI, fk=fk,
+                gk=gk, hk=hk, gamma=sl.pick_step(r, exact), mu=sl.pick_step(r, exact), x0=x0, y0=y0)
+
+
+def impl_dpdc(p, variant, n):
+    from odl.solvers.nonsmooth.difference_convex import doubleprox_dc, doubleprox_dc_simple
+    K = p['L']
+    x, y = unflat(K.domain, p['x0']), unflat(K.range, p['y0'])
+    rec = Recorder()
+    if variant == 'opt':
+        st, _ = guarded(doubleprox_dc, x, y, p['f'], p['phi'], p['g'], K, n, p['gamma'], p['mu'],
+                        callback=rec)
+    else:
+        st, _ = guarded(doubleprox_dc_simple, x, y, p['f'], p['phi'], p['g'], K, n, p['gamma'],
+                        p['mu'])
+    return st, rec.iterates, flat(x).copy(), flat(y).copy()
+
+
+def family_dpdc(ctx, r, exact, n, opaque=False):
+    p = gen_dpdc(r, exact, opaque)
+    p.update(cseed=r.cseed, exact=exact, opaque=opaque)
+    n = min(n, 8)
+    key = 'doubleprox_dc vs doubleprox_dc_simple opkind={} f={} phi={} g={}'.format(
+        p['opkind'], p['fk'], p['hk'], p['gk'])
+    st_o, log_o, x_o, y_o = impl_dpdc(p, 'opt', n)
+    xs, st_s, y_s = [], 'ok', None
+    for k in range(1, n + 1):
+        st_k, _, x_k, y_s = impl_dpdc(p, 'simple', k)
+        if st_k != 'ok':
+            st_s = st_k
+            break
+        xs.append(x_k)
+    if err_kind(st_o) != err_kind(st_s):
+        viol(ctx, key, 'outcomes differ: optimised {} / simple {}'.format(st_o, st_s), p, n=n)
+    elif st_o == 'ok':
+        d = sl.arrays_differ(log_o, xs) or (n and sl.arrays_differ([y_o], [y_s]))
+        if d:
+            viol(ctx, key, 'iterates differ: ' + d, p, n=n)
+        check_callback(ctx, p, n, log_o, x_o, 'doubleprox_dc')
+    else:
+        ctx.err(err_kind(st_o))
+    sig = ('opaque' if opaque else 'model', 'dpdc', p['opkind'], p['fk'], p['hk'], p['gk'],
+           steps_class(exact), n)
+    nt = st_o == 'ok' and nontrivial(log_o, p['x0'])
+    if opaque:
+        ctx.case(sig if nt else None)
+        ctx.hit('oracle/dpdc')
+        return []
+    A, At = wire_op(p['L'])
+    base = 'A={} At={} pf={} gphi={} pgc={} gamma={} mu={} x0={} y0={} n={}'.format(
+        fmat(A), fmat(At), p['F'].prox(p['gamma']), p['PHI'].grad, p['G'].cprox(p['mu']),
+        fs(p['gamma']), fs(p['mu']), fl(p['x0']), fl(p['y0']), n)
+    st_s, _, x_s, y_s = impl_dpdc(p, 'simple', n)
+    ctx.hit('model/dpdc/opt')
+    ctx.hit('model/dpdc/simple')
+    return [Case(desc_of(p, n=n, variant='opt'), sig + ('opt',) if nt else None,
+                 'dpdc variant=opt ' + base, st_o, log_o, {'x': x_o, 'y': y_o}),
+            Case(desc_of(p, n=n, variant='simple'), sig + ('simple',) if nt else None,
+                 'dpdc variant=simple ' + base, st_s, None, {'x': x_s, 'y': y_s})]
+
+
+# ---------------------------------------------------------------------------
+# solvers whose whole state is the iterate: split n+m vs unsplit
+
+def proj_pair(r):
+    """(python in-place projection, PSpec) or (None, 'none')"""
+    c = r.random()
+    if c < 0.5:
+        return None, 'none'
+    if c < 0.8:
+        def proj(x):
+            x.ufuncs.maximum(0, out=x)
+        return proj, 'lower:0'
+
+    def proj2(x):
+        x.ufuncs.minimum(1, out=x)
+        x.ufuncs.maximum(-1, out=x)
+    return proj2, 'clamp:-1:1'
+
+
+def resume_oracle(ctx, p, n, runner, what, obs_names=('x',)):
+    """runner(state0, k) -> (status, log, state_k); state is a tuple of flat arrays."""
+    r = random.Random(p['cseed'] ^ 0x5EED)
+    a, b = split_n(r, n)
+    st, log, full = runner(None, n)
+    if st != 'ok':
+        ctx.err(err_kind(st))
+        return st, log, full
+    st1, log1, mid = runner(None, a)
+    st2, log2, end = runner(mid, b)
+    key = '{} resume {}+{} opkind={} f={} g={}'.format(what, 'n', 'm', p.get('opkind'),
+                                                       p.get('fk'), p.get('gk'))
+    if st1 != 'ok' or st2 != 'ok':
+        viol(ctx, key, 'split run {}+{} failed ({}, {}) but the unsplit run succeeded'.format(
+            a, b, st1, st2), p, n=n, split=[a, b])
+        return st, log, full
+    for name, u, v in zip(obs_names, end, full):
+        d = sl.arrays_differ([u], [v])
+        if d:
+            viol(ctx, key, '{} after {}+{} iterations differs from {} iterations: {}'.format(
+                name, a, b, n, d), p, n=n, split=[a, b])
+            break
+    d = sl.arrays_differ(list(log1) + list(log2), log)
+    if d:
+        viol(ctx, key, 'callback iterates of the split run differ: ' + d, p, n=n, split=[a, b])
+    return st, log, full
+
+
+def gen_landweber(r, exact, opaque=False):
+    kind, A = sl.operator_zoo(r)
+    rhs = sl.dy_vec(r, size_of(A.range), 16, 8)
+    x0 = sl.dy_vec(r, size_of(A.domain), 16, 8)
+    proj, pspec = proj_pair(r)
+    import odl
+    if isinstance(A.domain, odl.ProductSpace):
+        proj, pspec = None, 'none'
+    omega = r.choice([0.125, 0.25, 0.0625] if exact else [0.1, 0.05, 0.3, 0.125])
+    return dict(solver='landweber', opkind=kind, L=A, rhs=rhs, x0=x0, proj=proj, pspec=pspec,
+                omega=omega, fk=pspec, gk='-')
+
+
+def family_landweber(ctx, r, exact, n, opaque=False):
+    from odl.solvers import landweber
+    p = gen_landweber(r, exact, opaque)
+    p.update(cseed=r.cseed, exact=exact, opaque=opaque)
+    A = p['L']
+
+    def runner(state, k):
+        x = unflat(A.domain, p['x0'] if state is None else state[0])
+        rec = Recorder()
+        st, _ = guarded(landweber, A, x, unflat(A.range, p['rhs']), k, omega=p['omega'],
+                        projection=p['proj'], callback=rec)
+        return st, rec.iterates, (flat(x).copy(),)
+    st, log, full = resume_oracle(ctx, p, n, runner, 'landweber')
+    if st == 'ok':
+        check_callback(ctx, p, n, log, full[0], 'landweber')
+    sig = ('model', 'landweber', p['opkind'], p['pspec'], steps_class(exact), n)
+    nt = st == 'ok' and nontrivial(log, p['x0'])
+    M, Mt = wire_op(A)
+    line = 'landweber A={} At={} rhs={} omega={} proj={} x0={} n={}'.format(
+        fmat(M), fmat(Mt), fl(p['rhs']), fs(p['omega']), p['pspec'], fl(p['x0']), n)
+    ctx.hit('model/landweber/proj=' + p['pspec'].split(':')[0])
+    return [Case(desc_of(p, n=n), sig if nt else None, line, st, log)]
+
+
+def gen_kaczmarz(r, exact, opaque=False):
+    import odl
+    d = r.randint(1, 3)
+    dom = odl.rn(d)
+    m = r.randint(1, 3)
+    ops = []
+    for i in range(m):
+        k = r.choice(['matrix', 'matrix', 'identity', 'scaled'])
+        if k == 'matrix':
+            ops.append(odl.MatrixOperator(sl.small_int_matrix(r, r.randint(1, 3), d)))
+        elif k == 'identity':
+            ops.append(odl.IdentityOperator(dom))
+        else:
+            ops.append(odl.ScalingOperator(dom, r.choice([-2.0, 0.5, 2.0])))
+    rhs = [sl.dy_vec(r, size_of(o.range), 16, 8) for o in ops]
+    steps = [0.125, 0.25, 0.0625] if exact else [0.1, 0.05, 0.3, 0.125]
+    omega = r.choice(steps) if r.random() < 0.5 else [r.choice(steps) for _ in range(m)]
+    proj, pspec = proj_pair(r)
+    return dict(solver='kaczmarz', opkind='x'.join(str(size_of(o.range)) for o in ops), ops=ops,
+                rhs=rhs, omega=omega, proj=proj, pspec=pspec, m=m, x0=sl.dy_vec(r, d, 16, 8),
+                cb=r.choice(['inner', 'outer']), fk=pspec, gk='-')
+
+
+def family_kaczmarz(ctx, r, exact, n, opaque=False):
+    from odl.solvers import kaczmarz
+    p = gen_kaczmarz(r, exact, opaque)
+    p.update(cseed=r.cseed, exact=exact, opaque=opaque)
+    ops = p['ops']
+    dom = ops[0].domain
+
+    def mk_runner(cb):
+        def runner(state, k):
+            x = unflat(dom, p['x0'] if state is None else state[0])
+            rec = Recorder()
+            st, _ = guarded(kaczmarz, ops, x, [unflat(o.range, b) for o, b in zip(ops, p['rhs'])],
+                            k, omega=p['omega'], projection=p['proj'], callback=rec,
+                            callback_loop=cb)
+            return st, rec.iterates, (flat(x).copy(),)
+        return runner
+    st, log, full = resume_oracle(ctx, p, n, mk_runner(p['cb']), 'kaczmarz(' + p['cb'] + ')')
+    if st == 'ok':
+        want = n * (p['m'] if p['cb'] == 'inner' else 1)
+        if len(log) != want:
+            viol(ctx, 'kaczmarz({}) callback count ranges={}'.format(p['cb'], p['opkind']),
+                 'callback called {} times, expected {}'.format(len(log), want), p, n=n)
+        elif n and np.any(log[-1] != full[0]):
+            viol(ctx, 'kaczmarz({}) last callback iterate != result'.format(p['cb']),
+                 'last callback saw {} but x is {}'.format(log[-1], full[0]), p, n=n)
+    sig = ('model', 'kaczmarz', p['opkind'], p['pspec'], p['cb'],
+           'list' if isinstance(p['omega'], list) else 'scalar', steps_class(exact), n)
+    nt = st == 'ok' and nontrivial(log, p['x0'])
+    mats = [wire_op(o) for o in ops]
+    rid = [min(i for i in range(p['m']) if ops[i].range == o.range) for o in ops]
+    om = p['omega'] if isinstance(p['omega'], list) else [p['omega']] * p['m']
+    fields = ' '.join('A{0}={1} At{0}={2} rhs{0}={3}'.format(
+        i, fmat(mats[i][0]), fmat(mats[i][1]), fl(p['rhs'][i])) for i in range(p['m']))
+    line = 'kaczmarz m={} {} omega={} proj={} rid={} cb={} x0={} n={}'.format(
+        p['m'], fields, fl(om), p['pspec'], ','.join(map(str, rid)), p['cb'], fl(p['x0']), n)
+    ctx.hit('model/kaczmarz/' + p['cb'])
+    return [Case(desc_of(p, n=n, cb=p['cb']), sig if nt else None, line, st, log)]
+
+
+def gen_proxgrad(r, exact, opaque=False):
+    import odl
+    d = r.randint(1, 4)
+    space = odl.rn(d) if r.random() < 0.7 else odl.uniform_discr(0, d, d)
+    if opaque:
+        fk, f = sl.opaque_functional_zoo(r, space)
+        gk, g = sl.opaque_functional_zoo(r, space, smooth=True)
+        F = G = None
+    else:
+        F = sl.functional_zoo(r, space, exact=exact)
+        G = sl.functional_zoo(r, space, smooth=True, exact=exact)
+        fk, f, gk, g = F.name, F.f, G.name, G.f
+    x0 = sl.dy_vec(r, d, 16, 8)
+    if fk == 'kl':
+        x0 = np.abs(x0) + 0.5
+    return dict(solver='proxgrad', opkind='space', space=space, f=f, g=g, F=F, G=G, fk=fk, gk=gk,
+                gamma=sl.pick_step(r, exact), lam=r.choice([1.0, 1.0, 0.5, 1.5]), x0=x0)
+
+
+def family_proxgrad(ctx, r, exact, n, opaque=False):
+    from odl.solvers import proximal_gradient
+    p = gen_proxgrad(r, exact, opaque)
+    p.update(cseed=r.cseed, exact=exact, opaque=opaque)
+
+    def runner(state, k):
+        x = unflat(p['space'], p['x0'] if state is None else state[0])
+        rec = Recorder()
+        st, _ = guarded(proximal_gradient, x, p['f'], p['g'], p['gamma'], k, callback=rec,
+                        lam=p['lam'])
+        return st, rec.iterates, (flat(x).copy(),)
+    st, log, full = resume_oracle(ctx, p, n, runner, 'proximal_gradient')
+    if st == 'ok':
+        check_callback(ctx, p, n, log, full[0], 'proximal_gradient')
+    sig = ('opaque' if opaque else 'model', 'proxgrad', p['fk'], p['gk'], p['lam'],
+           steps_class(exact), n)
+    nt = st == 'ok' and nontrivial(log, p['x0'])
+    if opaque:
+        ctx.case(sig if nt else None)
+        ctx.hit('oracle/proxgrad')
+        return []
+    line = 'proxgrad pf={} gg={} gamma={} lam={} x0={} n={}'.format(
+        p['F'].prox(p['gamma']), p['G'].grad, fs(p['gamma']), fs(p['lam']), fl(p['x0']), n)
+    ctx.hit('model/proxgrad')
+    return [Case(desc_of(p, n=n), sig if nt else None, line, st, log)]
+
+
+def gen_osmlem(r, exact, opaque=False):
+    import odl
+    d = r.randint(1, 3)
+    m = r.randint(1, 3)
+    ops = [odl.MatrixOperator(np.abs(sl.small_int_matrix(r, r.randint(1, 3), d, 0, 3)))
+           for _ in range(m)]
+    data = [np.abs(sl.dy_vec(r, size_of(o.range), 16, 4)) for o in ops]
+    x0 = np.abs(sl.dy_vec(r, d, 16, 8)) + r.choice([0.0, 0.125])
+    sens = None
+    if r.random() < 0.4:
+        sens = [np.abs(sl.dy_vec(r, d, 8, 4)) + 0.25 for _ in range(m)]
+    return dict(solver='osmlem', opkind='x'.join(str(size_of(o.range)) for o in ops), ops=ops,
+                data=data, x0=x0, sens=sens, m=m, fk='sens' if sens else 'default', gk='-',
+                use_mlem=(m == 1 and r.random() < 0.5))
+
+
+def family_osmlem(ctx, r, exact, n, opaque=False):
+    from odl.solvers import mlem, osmlem
+    p = gen_osmlem(r, exact, opaque)
+    p.update(cseed=r.cseed, exact=exact, opaque=opaque)
+    # exact rationals square in size with every division: keep n * m small
+    n = max(1, min(n, 6 // p['m']))
+    ops = p['ops']
+    dom = ops[0].domain
+
+    def runner(state, k):
+        x = unflat(dom, p['x0'] if state is None else state[0])
+        rec = Recorder()
+        kw = {}
+        if p['sens'] is not None:
+            kw['sensitivities'] = [unflat(dom, s) for s in p['sens']]
+        if p['use_mlem']:
+            # NB (observation, outside C11): passing a single domain element here, as the
+            # docstring allows, makes osmlem take `list(element)` and divide by its first
+            # ENTRY; a one-element list gives the documented behaviour.
+            st, _ = guarded(mlem, ops[0], x, unflat(ops[0].range, p['data'][0]), k,
+                            callback=rec, **kw)
+        else:
+            st, _ = guarded(osmlem, ops, x, [unflat(o.range, b) for o, b in zip(ops, p['data'])],
+                            k, callback=rec, **kw)
+        return st, rec.iterates, (flat(x).copy(),)
+    what = 'mlem' if p['use_mlem'] else 'osmlem'
+    st, log, full = resume_oracle(ctx, p, n, runner, what)
+    if st == 'ok':
+        if len(log) != n * p['m']:
+            viol(ctx, '{} callback count ranges={}'.format(what, p['opkind']),
+                 'callback called {} times in {} iterations with {} subsets'.format(
+                     len(log), n, p['m']), p, n=n)
+        elif n and np.any(log[-1] != full[0]):
+            viol(ctx, '{} last callback iterate != result'.format(what), 'differs', p, n=n)
+    sig = ('model', what, p['opkind'], p['fk'], n)
+    nt = st == 'ok' and nontrivial(log, p['x0'])
+    eps = Fraction(1e-8)
+    mats = [wire_op(o) for o in ops]
+    sens = []
+    for i in range(p['m']):
+        if p['sens'] is not None:
+            sens.append(sl.fr_vec(p['sens'][i]))
+        else:
+            sens.append([max(sum(row), eps) for row in mats[i][1]])
+    fields = ' '.join('A{0}={1} At{0}={2} data{0}={3} sens{0}={4}'.format(
+        i, fmat(mats[i][0]), fmat(mats[i][1]), fl(p['data'][i]), fl(sens[i]))
+        for i in range(p['m']))
+    line = 'osmlem m={} {} eps={} x0={} n={}'.format(p['m'], fields, fs(eps), fl(p['x0']), n)
+    ctx.hit('model/' + what)
+    return [Case(desc_of(p, n=n, mlem=p['use_mlem']), sig if nt else None, line, st, log)]
+
+
+def gen_steepest(r, exact, opaque=False):
+    import odl
+    d = r.randint(1, 3)
+    space = odl.rn(d)
+    S = odl.solvers
+    if r.random() < 0.5:
+        A = sl.small_int_matrix(r, r.randint(1, 3), d)
+        b = sl.dy_vec(r, A.shape[0], 8, 4)
+        Aop = odl.MatrixOperator(A)
+        f = S.L2NormSquared(Aop.range).translated(b) * Aop
+        At = A.T
+        M = 2 * At.dot(A)
+        c = -2 * At.dot(b)
+        gspec = 'lin:{}:{}'.format(fmat(M.tolist()), fl(c))
+        fk = 'lsq'
+    else:
+        G = sl.functional_zoo(r, space, smooth=True, exact=exact)
+        f, gspec, fk = G.f, G.grad, G.name
+    proj, pspec = proj_pair(r)
+    return dict(solver='steepest', opkind='space', space=space, f=f, gspec=gspec, fk=fk, gk=pspec,
+                step=r.choice([0.125, 0.25, 0.0625] if exact else [0.1, 0.05, 0.2]),
+                tol=r.choice([1e-16, 0.25, 1.0, 4.0]), proj=proj, pspec=pspec,
+                x0=sl.dy_vec(r, d, 16, 8))
+
+
+def family_steepest(ctx, r, exact, n, opaque=False):
+    from odl.solvers import steepest_descent
+    p = gen_steepest(r, exact, opaque)
+    p.update(cseed=r.cseed, exact=exact, opaque=opaque)
+
+    def runner(state, k):
+        x = unflat(p['space'], p['x0'] if state is None else state[0])
+        rec = Recorder()
+        st, _ = guarded(steepest_descent, p['f'], x, line_search=p['step'], maxiter=k,
+                        tol=p['tol'], projection=p['proj'], callback=rec)
+        return st, rec.iterates, (flat(x).copy(),)
+    st, log, full = resume_oracle(ctx, p, n, runner, 'steepest_descent(constant step)')
+    if st == 'ok':
+        if len(log) > n:
+            viol(ctx, 'steepest_descent callback count', 'callback called {} times in at most {} '
+                 'iterations'.format(len(log), n), p, n=n)
+        elif log and np.any(log[-1] != full[0]):
+            viol(ctx, 'steepest_descent last callback iterate != result', 'differs', p, n=n)
+    sig = ('model', 'steepest', p['fk'], p['pspec'], p['tol'], len(log) < n, steps_class(exact), n)
+    nt = st == 'ok' and nontrivial(log, p['x0'])
+    line = 'steepest gg={} tol={} step={} proj={} x0={} n={}'.format(
+        p['gspec'], fs(p['tol']), fs(p['step']), p['pspec'], fl(p['x0']), n)
+    ctx.hit('model/steepest/' + ('stopped-early' if st == 'ok' and len(log) < n else 'full'))
+    return [Case(desc_of(p, n=n), sig if nt else None, line, st, log)]
+
+
+# ---------------------------------------------------------------------------
+# PDHG
+
+def gen_pdhg(r, exact, opaque=False):
+    kind, L = sl.operator_zoo(r)
+    if opaque:
+        fk, f = sl.opaque_functional_zoo(r, L.domain)
+        gk, g = sl.opaque_functional_zoo(r, L.range)
+        F = G = None
+    else:
+        F = sl.functional_zoo(r, L.domain, exact=exact)
+        G = sl.functional_zoo(r, L.range, exact=exact)
+        fk, f, gk, g = F.name, F.f, G.name, G.f
+    x0 = sl.dy_vec(r, size_of(L.domain), 16, 8)
+    if fk == 'kl':
+        x0 = np.abs(x0) + 0.5
+    return dict(solver='pdhg', opkind=kind, L=L, f=f, g=g, F=F, G=G, fk=fk, gk=gk,
+                tau=sl.pick_step(r, exact), sigma=sl.pick_step(r, exact),
+                theta=r.choice([None, 1.0, 0.5, 0.0]), x0=x0)
+
+
+def family_pdhg(ctx, r, exact, n, opaque=False):
+    from odl.solvers import pdhg
+    p = gen_pdhg(r, exact, opaque)
+    p.update(cseed=r.cseed, exact=exact, opaque=opaque)
+    L = p['L']
+    kw = {} if p['theta'] is None else {'theta': p['theta']}
+    theta = 1.0 if p['theta'] is None else p['theta']
+
+    def runner(state, k):
+        if state is None:
+            x = unflat(L.domain, p['x0'])
+            xr, y = x.copy(), L.range.zero()
+        else:
+            x, xr, y = (unflat(L.domain, state[0]), unflat(L.domain, state[1]),
+                        unflat(L.range, state[2]))
+        rec = Recorder()
+        st, _ = guarded(pdhg, x, p['f'], p['g'], L, k, tau=p['tau'], sigma=p['sigma'],
+                        callback=rec, x_relax=xr, y=y, **kw)
+        return st, rec.iterates, (flat(x).copy(), flat(xr).copy(), flat(y).copy())
+    st, log, full = resume_oracle(ctx, p, n, runner, 'pdhg(x_relax, y passed back)',
+                                  ('x', 'x_relax', 'y'))
+    if st == 'ok':
+        check_callback(ctx, p, n, log, full[0], 'pdhg')
+        # the defaults (no x_relax / y given) are x_relax = x.copy(), y = 0
+        x = unflat(L.domain, p['x0'])
+        rec = Recorder()
+        st_d, _ = guarded(pdhg, x, p['f'], p['g'], L, n, tau=p['tau'], sigma=p['sigma'],
+                          callback=rec, **kw)
+        if st_d != 'ok' or sl.arrays_differ(rec.iterates, log):
+            viol(ctx, 'pdhg default x_relax/y vs explicit x.copy()/zero opkind={} f={} g={}'.format(
+                p['opkind'], p['fk'], p['gk']), 'iterates differ ({})'.format(st_d), p, n=n)
+    sig = ('opaque' if opaque else 'model', 'pdhg', p['opkind'], p['fk'], p['gk'], str(p['theta']),
+           steps_class(exact), n)
+    nt = st == 'ok' and nontrivial(log, p['x0'])
+    if opaque:
+        ctx.case(sig if nt else None)
+        ctx.hit('oracle/pdhg')
+        return []
+    A, At = wire_op(L)
+    base = 'pdhg A={} At={} pf={} pgc={} tau={} sigma={} theta={}'.format(
+        fmat(A), fmat(At), p['F'].prox(p['tau']), p['G'].cprox(p['sigma']), fs(p['tau']),
+        fs(p['sigma']), fs(theta))
+    cases = [Case(desc_of(p, n=n), sig if nt else None,
+                  base + ' x0={} n={}'.format(fl(p['x0']), n), st, log,
+                  {'x': full[0], 'xr': full[1], 'y': full[2]} if st == 'ok' else {})]
+    ctx.hit('model/pdhg/fresh')
+    if st == 'ok' and n >= 2:
+        a = n // 2
+        st1, _, mid = runner(None, a)
+        st2, log2, end = runner(mid, n - a)
+        if st1 == 'ok':
+            cases.append(Case(desc_of(p, n=n - a, resumed_after=a), sig + ('resumed',) if nt else None,
+                              base + ' x0={} xr={} y={} n={}'.format(
+                                  fl(mid[0]), fl(mid[1]), fl(mid[2]), n - a), st2, log2,
+                              {'x': end[0], 'xr': end[1], 'y': end[2]} if st2 == 'ok' else {}))
+            ctx.hit('model/pdhg/resumed')
+    return cases
+
+
 FAMILIES = {
     'admm': family_admm,
+    'adupdates': family_adupdates,
+    'dpdc': family_dpdc,
+    'landweber': family_landweber,
+    'kaczmarz': family_kaczmarz,
+    'proxgrad': family_proxgrad,
+    'osmlem': family_osmlem,
+    'steepest': family_steepest,
+    'pdhg': family_pdhg,
 }
+OPAQUE_FAMILIES = ('admm', 'adupdates', 'dpdc', 'proxgrad', 'pdhg')
 
 
 class SeededRandom(random.Random):
@@ -177,7 +783,7 @@ def plan(ctx, deep=False):
     """(family, cseed, exact, n, opaque) tuples for this run."""
     rng = ctx.rng
     quick = ctx.quick and not deep
-    per = 14 if quick else 60
+    per = 40 if quick else 150
     nmax = 8 if quick else 24
     out = []
     for fam in sorted(FAMILIES):
@@ -185,8 +791,9 @@ def plan(ctx, deep=False):
             exact = i % 3 != 2
             n = rng.randint(1, 5) if exact else rng.randint(1, nmax)
             out.append((fam, rng.getrandbits(48), exact, n, False))
-        for i in range(per):
-            out.append((fam, rng.getrandbits(48), False, rng.randint(1, nmax), True))
+        if fam in OPAQUE_FAMILIES:
+            for i in range(per):
+                out.append((fam, rng.getrandbits(48), False, rng.randint(1, nmax), True))
     return out
 
 
@@ -199,7 +806,11 @@ def run(ctx, deep=False):
     cases = []
     for fam, cseed, exact, n, opaque in plan(ctx, deep):
         cases.extend(run_one(ctx, fam, cseed, exact, n, opaque))
+    import time
+    t0 = time.time()
+    ctx.extra['impl_s'] = round(ctx.elapsed(), 1)
     outs = core.run_driver('C11', [c.line for c in cases])
+    ctx.extra['driver_s'] = round(time.time() - t0, 1)
     for c, ans in zip(cases, outs):
         fields = sl.parse_answer(ans)
         sample = None
@@ -213,8 +824,15 @@ def run(ctx, deep=False):
         if c.impl_status != 'ok':
             ctx.disagree(c.desc, c.impl_status, 'ok')
             continue
-        mlog = core.pfmat(fields.get('log', '-'))
-        d = sl.seq_mismatch(c.impl_log, mlog)
+        d = None
+        ex = sl.line_exact(c.line)
+        ctx.hit('compare/' + ('exact' if ex else 'tolerance'))
+        if c.impl_log is not None:
+            d = sl.seq_mismatch(c.impl_log, core.pfmat(fields.get('log', '-')), exact=ex)
+        for k, v in sorted(c.extra.items()):
+            if d is None and k in fields:
+                d = sl.seq_mismatch([v], [core.pfl(fields[k])], exact=ex)
+                d = d and 'final {}: {}'.format(k, d)
         if d:
             ctx.disagree(c.desc, d, ans[:300])
 
